@@ -29,13 +29,13 @@ LEVEL_TEXT = (
 LEVEL_NOTE = "The expected chain comes from CPython's own frame objects captured on the same line; the depth limit is read from uberjob (MAX_TRACEBACK_DEPTH)."
 TECHNIQUE = "property-based testing over generated programs: differential comparison of symbolic tracebacks with an independent sys._getframe walk"
 RULE = (
-    "Hypothesis draws (site kind in 12 kinds, optionally a second harmless route to the same site line before or after, nesting depth 0..8, per-function blank-line padding, worker count, "
+    "Hypothesis draws (site kind in 13 kinds, optionally a second harmless route to the same site line before or after, nesting depth 0..8, per-function blank-line padding, worker count, "
     "scheduler). Non-trivial = depth >= 1 or a site kind other than plan.call. Distinct = SHA-1 of the case."
 )
 ASSUMPTIONS = ["failures of the gathered *output* of run and modified-time failures on registered Literals are outside the statement"]
 
 KINDS = ["call", "implicit_gather", "gather", "unpack", "add_write", "add_read", "source_read", "mt_stored",
-         "mt_source", "call_kw", "add_read_fresh", "add_read_fresh_elsewhere"]
+         "mt_source", "call_kw", "add_read_fresh", "add_read_fresh_elsewhere", "call_nested"]
 
 
 class FailStore(ValueStore):
@@ -70,6 +70,12 @@ def returns_list():
     return [1]
 
 
+def nested_boom(*a, **k):
+    inner = uberjob.Plan()
+    x = inner.call(boom, 2)
+    return uberjob.run(inner, output=x, progress=None)
+
+
 def walk(frame):
     out = []
     while frame is not None:
@@ -80,6 +86,8 @@ def walk(frame):
 
 SITE = {
     "call": ["c.node = c.plan.call(c.boom, 1); c.frames = c.walk(sys._getframe())"],
+    # the failing call itself runs another plan whose call fails: the outer error names the OUTER call
+    "call_nested": ["c.node = c.plan.call(c.nested_boom, 1); c.frames = c.walk(sys._getframe())"],
     "call_kw": ["c.node = c.plan.call(c.boom, x=[c.plan.call(c.returns_list)]); c.frames = c.walk(sys._getframe())"],
     "implicit_gather": ["inner = c.plan.call(c.returns_list)",
                         "c.outer = c.plan.call(len, {inner}); c.frames = c.walk(sys._getframe())"],
@@ -232,6 +240,7 @@ def check_case(ctx, case, record=True):
         c.plan = uberjob.Plan()
         c.registry = uberjob.Registry()
         c.boom, c.returns_list, c.walk, c.FailStore = boom, returns_list, walk, FailStore
+        c.nested_boom = nested_boom
         c.done = threading.Event()
         c.error = None
         c.frames = None
@@ -262,7 +271,7 @@ def check_case(ctx, case, record=True):
         else:
             ctx.violation(case, "run did not fail")
         call = err.call
-        want_fn = {"call": boom, "call_kw": boom, "add_write": FailStore.write, "add_read": FailStore.read,
+        want_fn = {"call": boom, "call_kw": boom, "call_nested": nested_boom, "add_write": FailStore.write, "add_read": FailStore.read,
                    "add_read_fresh": FailStore.read, "add_read_fresh_elsewhere": FailStore.read,
                    "source_read": FailStore.read, "mt_stored": returns_list}.get(case["kind"])
         if want_fn is not None and call.fn is not want_fn:
@@ -291,6 +300,8 @@ def check_case(ctx, case, record=True):
             ctx.violation(case, f"rendered traceback {lines[2:]} differs from expected {exp_lines}")
         if err.__cause__ is None:
             ctx.violation(case, "CallError has no __cause__")
+        if case["kind"] == "call_nested" and not isinstance(err.__cause__, uberjob.CallError):
+            ctx.violation(case, f"the cause of the outer CallError is {err.__cause__!r}, expected the inner run's CallError")
     finally:
         shutil.rmtree(d, ignore_errors=True)
 
